@@ -1,4 +1,5 @@
 import RV.Scalar
+import RV.Model.Dual
 /-
   Model of the variational code of REBOUND, written once over `[Scalar K]` in the
   operation order of the C source.
@@ -297,6 +298,23 @@ def var2Pair (G : K) (sq : K → K) (pi pj : RV2 K) : V3 K × V3 K :=
 def accVar2 (G : K) (sq : K → K) (ps : List (RV2 K)) : List (V3 K) :=
   loopEF V3.add (var2Pair G sq) ps (ps.map (fun _ => V3.zero))
 
+/-- second-order set restricted to what the force routine computes when `N_active < N`
+    (testparticle_type 0): outer loop over the active particles only, and a test particle `j`
+    does not contribute to `a[i]`.  This is what fixes/C16-var-nactive.diff makes of the loop;
+    the unpatched loop is `accVar2` whatever `N_active` is. -/
+def loopEFsplit {α A : Type} (add : A → A → A) (zero : A) (f : α → α → A × A) :
+    List α → List A → List α → List A → List A × List A
+  | pi :: rest, ai :: ar, tst, at_ =>
+    let res := inner add f pi ai rest ar
+    let rt := inner add f pi zero tst at_
+    let r := loopEFsplit add zero f rest res.2 tst rt.2
+    (res.1 :: r.1, r.2)
+  | _, _, _, at_ => ([], at_)
+
+def accVar2Split (G : K) (sq : K → K) (act tst : List (RV2 K)) : List (V3 K) :=
+  let r := loopEFsplit V3.add V3.zero (var2Pair G sq) act (act.map (fun _ => V3.zero)) tst (tst.map (fun _ => V3.zero))
+  r.1 ++ r.2
+
 /-- gravity.c:1271-1324: one term of the second-order single test-particle variation.
     `dd`: second-order variational particle, `k1`,`k2`: the two first-order ones. -/
 def tpVar2Term (G : K) (sq : K → K) (x y z : K) (dd k1 k2 : V3 K) (pj : GP K) : V3 K :=
@@ -390,6 +408,143 @@ def correctorReal (order : Nat) (inv dt : K) (as_ bs : List K) : List (WOp K) :=
 /-- run a schedule with a given interpretation of the primitives -/
 def runOps {S : Type} (step : WOp K → S → S) (ops : List (WOp K)) (s : S) : S :=
   ops.foldl (fun st o => step o st) s
+
+/-! ## element → Cartesian maps and what the generated derivative functions (RV/Gen/C16Deriv) need -/
+
+/-- the libm functions used by derivatives.c / the constructors, as explicit operations
+    (Float: libm; theorems: abstract functions with the properties stated in the theorem) -/
+structure DOps (K : Type) where
+  sin : K → K
+  cos : K → K
+  sqrt : K → K
+  fabs : K → K
+
+/-- the same operations on dual numbers (chain rule); `sgn` is the derivative of `fabs` -/
+def DOps.lift (o : DOps K) (sgn : K → K) : DOps (Dual K) :=
+  { sin := fun a => ⟨o.sin a.re, o.cos a.re * a.eps⟩
+    cos := fun a => ⟨o.cos a.re, -(o.sin a.re * a.eps)⟩
+    sqrt := Dual.sqrtLift o.sqrt
+    fabs := fun a => ⟨o.fabs a.re, sgn a.re * a.eps⟩ }
+
+/-- `sgn` on duals (locally constant) -/
+def sgnLift (sgn : K → K) : Dual K → Dual K := fun a => ⟨sgn a.re, Scalar.zero⟩
+
+/-- m, x, y, z, vx, vy, vz of a `struct reb_particle` -/
+structure P7 (K : Type) where
+  m : K
+  x : K
+  y : K
+  z : K
+  vx : K
+  vy : K
+  vz : K
+deriving Repr, Inhabited
+
+/-- decimal literal `p/q` (q a power of ten): correctly rounded, hence the double the C compiler produces -/
+def dlit (p q : Nat) : K := (Scalar.ofNat p : K) / Scalar.ofNat q
+
+/-- `reb_particle_from_pal` (tools.c:1261-1293) relative to the primary, with the solution
+    `(p,q)` of Pal's Kepler equation as inputs -/
+def palMap (o : DOps K) (G m M a lam k h ix iy p q : K) : P7 K :=
+  let one : K := Scalar.one
+  let slp := o.sin (lam + p)
+  let clp := o.cos (lam + p)
+  let l := one - o.sqrt (one - h*h - k*k)
+  let xi := a*(clp + p/(two - l)*h - k)
+  let eta := a*(slp - p/(two - l)*k - h)
+  let iz := o.sqrt (o.fabs ((Scalar.ofNat 4 : K) - ix*ix - iy*iy))
+  let W := eta*ix - xi*iy
+  let half : K := dlit 5 10
+  let an := o.sqrt (G*(m + M)/a)
+  let dxi := an/(one - q)*(-slp + q/(two - l)*h)
+  let deta := an/(one - q)*(clp - q/(two - l)*k)
+  let dW := deta*ix - dxi*iy
+  ⟨m, xi + half*iy*W, eta - half*ix*W, half*iz*W, dxi + half*iy*dW, deta - half*ix*dW, half*iz*dW⟩
+
+/-- `reb_particle_from_orbit_err` (tools.c:955-978) relative to the primary -/
+def orbMap (o : DOps K) (G m M a e inc Omega omega f : K) : P7 K :=
+  let one : K := Scalar.one
+  let r := a*(one - e*e)/(one + e*o.cos f)
+  let v0 := o.sqrt (G*(m + M)/a/(one - e*e))
+  let cO := o.cos Omega
+  let sO := o.sin Omega
+  let co := o.cos omega
+  let so := o.sin omega
+  let cf := o.cos f
+  let sf := o.sin f
+  let ci := o.cos inc
+  let si := o.sin inc
+  ⟨m,
+   r*(cO*(co*cf - so*sf) - sO*(so*cf + co*sf)*ci),
+   r*(sO*(co*cf - so*sf) + cO*(so*cf + co*sf)*ci),
+   r*(so*cf + co*sf)*si,
+   v0*((e + cf)*(-ci*co*sO - cO*so) - sf*(co*cO - ci*so*sO)),
+   v0*((e + cf)*(ci*co*cO - sO*so) - sf*(co*sO + ci*so*cO)),
+   v0*((e + cf)*co*si - sf*si*so)⟩
+
+/-! ## name dispatch of `Particle(variation=, variation2=)` (rebound/particle.py:227-262) -/
+
+/-- shortcut expansion (`l`→`lambda`, `i`→`inc`) -/
+def expandShortcut (sc : List (String × String)) (v : String) : String :=
+  match sc.find? (fun p => p.1 == v) with
+  | some p => p.2
+  | none => v
+
+/-- first order: the C symbol suffix, or `none` (Python raises ValueError) -/
+def dispatch1 (types : List String) (sc : List (String × String)) (v : String) : Option String :=
+  let v := expandShortcut sc v
+  if types.contains v then some v else none
+
+/-- second order: names are ordered by their position in `variationtypes` -/
+def dispatch2 (types : List String) (sc : List (String × String)) (v1 v2 : String) : Option String :=
+  let v1 := expandShortcut sc v1
+  let v2 := expandShortcut sc v2
+  if types.contains v1 && types.contains v2 then
+    if types.idxOf v2 < types.idxOf v1 then some (v2 ++ "_" ++ v1) else some (v1 ++ "_" ++ v2)
+  else none
+
+/-- the two element families for which second derivatives exist -/
+def orbFamily : List String := ["m", "a", "e", "inc", "Omega", "omega", "f"]
+def palFamily : List String := ["m", "a", "lambda", "h", "k", "ix", "iy"]
+
+/-! ## MEGNO bookkeeping (tools.c: reb_tools_megno_update, reb_simulation_megno, reb_simulation_lyapunov) -/
+
+structure Megno (K : Type) where
+  Ys : K
+  Yss : K
+  cov : K
+  var : K
+  n : Nat
+  meanY : K
+  meanT : K
+deriving Repr
+
+def Megno.init : Megno K := ⟨Scalar.zero, Scalar.zero, Scalar.zero, Scalar.zero, 0, Scalar.zero, Scalar.zero⟩
+
+/-- `reb_simulation_megno`: `if (r->t==0.) return 0.; return r->megno_Yss/r->t;` -/
+def megnoOf (isZero : K → Bool) (t Yss : K) : K := if isZero t then Scalar.zero else Yss / t
+
+/-- `reb_tools_megno_update(r, dY, dt_done)` at simulation time `t` -/
+def megnoUpdate (isZero : K → Bool) (s : Megno K) (t dY dtDone : K) : Megno K :=
+  let Ys := s.Ys + dY
+  let Y := Ys / t
+  let Yss := s.Yss + Y * dtDone
+  let n := s.n + 1
+  let nf : K := Scalar.ofNat n
+  let dT := t - s.meanT
+  let meanT := s.meanT + dT / nf
+  let dYm := megnoOf isZero t Yss - s.meanY
+  let meanY := s.meanY + dYm / nf
+  let cov := s.cov + (nf - Scalar.one) / nf * (t - meanT) * (megnoOf isZero t Yss - meanY)
+  let var := s.var + (nf - Scalar.one) / nf * (t - meanT) * (t - meanT)
+  ⟨Ys, Yss, cov, var, n, meanY, meanT⟩
+
+/-- a history of updates `(t, dY, dt_done)` -/
+def megnoRun (isZero : K → Bool) (s : Megno K) (l : List (K × K × K)) : Megno K :=
+  l.foldl (fun st u => megnoUpdate isZero st u.1 u.2.1 u.2.2) s
+
+/-- `reb_simulation_lyapunov` -/
+def lyapunovOf (isZero : K → Bool) (s : Megno K) : K := if isZero s.var then Scalar.zero else s.cov / s.var
 
 /-! ## move_to_com, one Cartesian component at a time (tools.c:162-312)
 
